@@ -95,7 +95,11 @@ func addRenumberToMapping(d dvid.Data, v dvid.VersionID, mutID, origLabel, newLa
 	for supervoxel := range supervoxels {
 		lmap.setMapping(v, supervoxel, newLabel)
 	}
-	lmap.setMapping(v, newLabel, 0)
+	if _, isSupervoxel := supervoxels[newLabel]; !isSupervoxel {
+		// the new label is not itself a supervoxel of the body, so as a supervoxel id it maps nowhere;
+		// if it is one of them (renumbering back onto a supervoxel's id) it was just mapped above.
+		lmap.setMapping(v, newLabel, 0)
+	}
 	op := labels.MappingOp{
 		MutID:    mutID,
 		Mapped:   newLabel,
